@@ -120,8 +120,18 @@ func (ex *Exec) callFunc(f *ssa.Function, args, freeVars []Term, cc *ssa.CallCom
 func (ex *Exec) callFunc1(f *ssa.Function, args, freeVars []Term, cc *ssa.CallCommon, h *Heap, reach Term, at ssa.Value) []Term {
 	q := ex.q
 	key := funcKey(f)
+	if rs, ok := ex.builtinFunc(f, args, reach); ok {
+		return rs
+	}
 	c := ex.P.contracts.get(key)
 	li := ex.P.loops(f)
+	if ex.root.contract != nil && len(f.Blocks) > 0 && !ex.onStack(f) && ex.depth < maxInlineDepth {
+		for _, u := range ex.root.contract.Unfold {
+			if strings.HasSuffix(key, u) {
+				return ex.inline(f, args, freeVars, h, reach, at)
+			}
+		}
+	}
 	if c != nil && !c.Inline {
 		return ex.contractCall(f, c, args, h, reach, at)
 	}
@@ -196,6 +206,7 @@ func (ex *Exec) contractCall(f *ssa.Function, c *Contract, args []Term, h *Heap,
 	pnames, ptypes := sigParams(f)
 	for i := range pnames {
 		vars[pnames[i]] = SV{args[i], ptypes[i]}
+		vars[pnames[i]+"0"] = SV{args[i], ptypes[i]}
 	}
 	pre := h.clone()
 	cx := &Exec{q: q, P: ex.P, fn: f, vals: map[ssa.Value]Term{}, locs: map[ssa.Value]*Loc{}, params: args, entryHeap: pre, stack: ex.stack, depth: ex.depth, counters: ex.counters}
@@ -625,3 +636,41 @@ func (paramValue) Type() types.Type              { return types.Typ[types.Int] }
 func (paramValue) Parent() *ssa.Function         { return nil }
 func (paramValue) Referrers() *[]ssa.Instruction { return nil }
 func (paramValue) Pos() token.Pos                { return token.NoPos }
+
+// builtinFunc gives exact semantics to a few pure standard-library functions.
+func (ex *Exec) builtinFunc(f *ssa.Function, args []Term, reach Term) ([]Term, bool) {
+	q := ex.q
+	path := calleePkgPath(f)
+	name := f.Name()
+	intT := types.Typ[types.Int]
+	lit := func(n int64) Term { return ex.intLit(n, intT) }
+	switch {
+	case path == "cmp" && strings.HasPrefix(name, "Compare") && len(args) == 2:
+		a, b := args[0], args[1]
+		pt := f.Signature.Params().At(0).Type()
+		switch {
+		case a.Sort == sF64 || a.Sort == sF32:
+			nanA, nanB := app(sBool, "fp.isNaN", a), app(sBool, "fp.isNaN", b)
+			r := ite(nanA, ite(nanB, lit(0), lit(-1)), ite(nanB, lit(1), ite(app(sBool, "fp.lt", a, b), lit(-1), ite(app(sBool, "fp.gt", a, b), lit(1), lit(0)))))
+			return []Term{q.def("cmpf", r)}, true
+		case isBV(a.Sort):
+			ltOp, gtOp := "bvslt", "bvsgt"
+			if !isSignedInt(pt) {
+				ltOp, gtOp = "bvult", "bvugt"
+			}
+			return []Term{q.def("cmpi", ite(app(sBool, ltOp, a, b), lit(-1), ite(app(sBool, gtOp, a, b), lit(1), lit(0))))}, true
+		case a.Sort == sInt:
+			return []Term{q.def("cmpi", ite(lt(a, b), lit(-1), ite(lt(b, a), lit(1), lit(0))))}, true
+		case a.Sort == sStr:
+			q.needStrCmp = true
+			r := app(sInt, "uf_strcmp", a, b)
+			if q.so.bv {
+				return []Term{q.def("cmps", ite(eq(r, tInt(-1)), lit(-1), ite(eq(r, tInt(0)), lit(0), lit(1))))}, true
+			}
+			return []Term{q.def("cmps", r)}, true
+		}
+	case path == "math" && name == "IsNaN" && len(args) == 1:
+		return []Term{app(sBool, "fp.isNaN", args[0])}, true
+	}
+	return nil, false
+}
